@@ -14,18 +14,18 @@ Proof. exact time_roundtrip. Qed.
 Print Assumptions C16_time_roundtrip.
 
 (* adding a duration: the time that many minutes later when within [-1440, 2880), an error otherwise *)
-Theorem C16_plus_spec : forall t d, valid_time t -> sm_ok d = true -> sm_ok (time_offset t + d) = true ->
+Theorem C16_plus_spec : forall t d, valid_time t -> sm_ok d = true ->
   let m := time_offset t + d in
   (-1440 <= m < 2880 -> exists t', time_plus t d = Ok t' /\ valid_time t' /\ time_offset t' = m /\ t_24h t' = t_24h t) /\
   (~ (-1440 <= m < 2880) -> time_plus t d = Err EImpossibleOperation).
-Proof. exact plus_spec. Qed.
+Proof. exact plus_spec_total. Qed.
 Print Assumptions C16_plus_spec.
 
-(* the int64 guard of C16_plus_spec is exact: beyond it Time.Plus panics instead of returning an error (K6) *)
-Theorem C16_plus_overflow_refuted : exists t d, valid_time t /\ sm_ok d = true /\ time_plus t d = Crash CIntegerOverflow.
-Proof. exists {| t_hour := 0; t_min := 1; t_shift := 0; t_24h := true |}, max_int64.
-  split; [unfold valid_time; simpl; lia | split; [reflexivity | exact plus_overflow_crash]]. Qed.
-Print Assumptions C16_plus_overflow_refuted.
+(* in particular a duration near the int64 limit is an error, not a panic (finding K6, fixed in /repo) *)
+Theorem C16_plus_overflow_is_error :
+  time_plus {| t_hour := 0; t_min := 1; t_shift := 0; t_24h := true |} max_int64 = Err EImpossibleOperation.
+Proof. exact plus_overflow_is_error. Qed.
+Print Assumptions C16_plus_overflow_is_error.
 
 (* a range is valid exactly when its end is not before its start, and lasts end minus start minutes *)
 Theorem C16_range_spec : forall a b sp,
